@@ -192,10 +192,15 @@ def REPLACE(
     num_chars_int = int(num_chars)
     new_text_str = str(new_text)
 
-    sliced_old_text = old_text_str[start_num_int:
-                                   start_num_int + num_chars_int]
+    if start_num_int < 0:
+        raise xlerrors.ValueExcelError(f'{start_num_int + 1} is < 1')
+    if num_chars_int < 0:
+        raise xlerrors.ValueExcelError(f'{num_chars_int} is < 0')
 
-    return old_text_str.replace(sliced_old_text, new_text_str)
+    # Replace by position: the characters before start_num, the new text,
+    # and whatever follows the replaced num_chars characters.
+    return (old_text_str[:start_num_int] + new_text_str
+            + old_text_str[start_num_int + num_chars_int:])
 
 
 @xl.register()
